@@ -163,12 +163,14 @@ AllHold(gs) == \A g \in gs : g[2]
 Failed(gs) == {g[1] : g \in {x \in gs : ~x[2]}}
 
 \* Guards of a pull by a LIVE subscription s at time t.
-PullGuards(s, max, out, queueAfter, t) ==
+\* abandoned: the requester of this pull may have gone away before the turn (then an empty
+\* answer to nobody is not a response the contract speaks about).
+PullGuards(s, max, out, queueAfter, t, abandoned) ==
     LET msgs  == [i \in 1..Len(out) |-> out[i].m]
         acks  == [i \in 1..Len(out) |-> out[i].ack]
         fresh == {m \in SeqSet(s.queue) : m \notin s.seen}
     IN { G("C15", max >= 1 => Len(out) <= max),
-         G("C15", (max >= 1 /\ s.queue # <<>>) => out # <<>>),
+         G("C06,C15", (max >= 1 /\ s.queue # <<>> /\ ~abandoned) => out # <<>>),
          G("C03", NoDup(msgs)),
          G("C03", SeqSet(msgs) \subseteq SeqSet(s.queue)),
          G("C03", LeasedMsgs(s) \cap SeqSet(msgs) = {}),
@@ -353,15 +355,15 @@ SubPost_A(si, ids) ==
     /\ UNCHANGED <<tmap, smap, T, torder, sorder, reg, pubs>>
 SubPost(si, ids) == AllHold(SubPost_G(si, ids)) /\ SubPost_A(si, ids) /\ now' = now
 
-SubPull_G(si, max, out, queueAfter, t) ==
+SubPull_G(si, max, out, queueAfter, t, abandoned) ==
     IF si \notin DOMAIN S THEN { G("BIND", FALSE) } ELSE
-    IF S[si].st = "live" THEN PullGuards(S[si], max, out, queueAfter, t)
+    IF S[si].st = "live" THEN PullGuards(S[si], max, out, queueAfter, t, abandoned)
     ELSE { G("C11", out = <<>>) }           \* a deleted subscription receives nothing further
 SubPull_A(si, max, out, queueAfter, t) ==
     /\ S' = IF S[si].st = "live" THEN [S EXCEPT ![si] = SubAfterPull(@, out, queueAfter, t)] ELSE S
     /\ UNCHANGED <<tmap, smap, T, torder, sorder, reg, pubs>>
 SubPull(si, max, out, queueAfter) ==
-    AllHold(SubPull_G(si, max, out, queueAfter, now)) /\ SubPull_A(si, max, out, queueAfter, now) /\ now' = now
+    AllHold(SubPull_G(si, max, out, queueAfter, now, FALSE)) /\ SubPull_A(si, max, out, queueAfter, now) /\ now' = now
 
 SubAck_G(si, acks) == { G("BIND", si \in DOMAIN S) }
 SubAck_A(si, acks) ==
